@@ -172,10 +172,14 @@ func vfHourNow() int64 { return time.Now().Unix() / 3600 }
 
 // vfEnt returns a deterministic entropy function for reference-side keys.
 func vfEnt(k uint64) func(n int) []byte {
+	// Domain-separated from the keys used for identities and seeds (rapid likes
+	// small numbers: without the mixing, "identity 3" and "third draw of entropy
+	// 0" would be the same bytes and an impostor would hold the real key).
+	base := (k+0x9e3779b97f4a7c15)*0xbf58476d1ce4e5b9 ^ 0xe17a0000e17a0000
 	ctr := uint64(0)
 	return func(n int) []byte {
 		ctr++
-		return detrand.Bytes(k*1000003+ctr, n)
+		return detrand.Bytes(base+ctr*0x100000001b3, n)
 	}
 }
 
